@@ -13,6 +13,7 @@ import (
 	"github.com/fatedier/frp/client/proxy"
 	"github.com/fatedier/frp/client/visitor"
 	v1 "github.com/fatedier/frp/pkg/config/v1"
+	"github.com/fatedier/frp/pkg/config/v1/validation"
 	"github.com/fatedier/frp/pkg/msg"
 	httppkg "github.com/fatedier/frp/pkg/util/http"
 	"github.com/fatedier/frp/pkg/util/wait"
@@ -160,6 +161,21 @@ func verif_client_worker(ctl *Control) {
 //verif:guarded Service ctlMu ctl
 //verif:guarded Service cfgMu proxyCfgs visitorCfgs
 //verif:sweep-type Service props=C16 kinds=lock
+
+// The configuration loader and validator the admin API calls on reload
+// (pkg/config, pkg/config/v1/validation; under contract for C18) are never handed the Service and cannot reach its fields:
+// in this package it is replaced by unknown results (trusted; keeps the sweep
+// of apiReload within the path budget).
+//
+//verif:stub ~/pkg/config/v1/validation.ValidateAllClientConfig
+func verifStubValidateAllClientConfig(c *v1.ClientCommonConfig, proxyCfgs []v1.ProxyConfigurer, visitorCfgs []v1.VisitorConfigurer) (validation.Warning, error) {
+	return verif.Any[validation.Warning](), verif.Any[error]()
+}
+
+//verif:stub ~/pkg/config.LoadClientConfig
+func verifStubLoadClientConfig(path string, strict bool) (*v1.ClientCommonConfig, []v1.ProxyConfigurer, []v1.VisitorConfigurer, bool, error) {
+	return verif.Any[*v1.ClientCommonConfig](), verif.Any[[]v1.ProxyConfigurer](), verif.Any[[]v1.VisitorConfigurer](), verif.Any[bool](), verif.Any[error]()
+}
 
 // ---------------------------------------------------------------- C16: handlers and the types they are registered for
 
